@@ -113,6 +113,12 @@ def stopRecordingOrder : String := "fw.writer.Close;renameTempRecording"
 /-- handleConn: deferred clean-up of an unfinished recording -/
 def handleConnDefer : String := "cptvRecorder.Stop()"
 
+/-- runMain: configuration, service, clean-up of the output directory, then the loop listen / accept / close the listener / handleConn -/
+def runMainSkeleton : String := "ParseConfig(args.ConfigDir);startService(conf.OutputDir);deleteTempFiles(conf.OutputDir);for{;os.Remove(conf.FrameInput);net.Listen(\"unix\",conf.FrameInput);listener.Accept();listener.Close();handleConn(conn,conf);}"
+
+/-- thermal-writer runMain: configuration, then the loop listen / accept / close the listener / handleConn -/
+def writerRunMainSkeleton : String := "ParseConfig(args.ConfigDir);for{;os.Remove(conf.FrameInput);net.Listen(\"unix\",conf.FrameInput);listener.Accept();listener.Close();handleConn(conn,conf,args.FrameRate);}"
+
 /-- thermal-writer handleConn: const inFlight -/
 def inFlight : Nat := 256
 
